@@ -4,11 +4,10 @@ import BV.Lemmas.StreamTotal
 C11 addendum: `EncSane` of the modelled encoder WITHOUT the hypothesis `OracleBounded`.
 
 `EncSane (streamEnc o)` — a `compress_stream` call never reports more input consumed than was
-offered nor more output produced than there was room for — was proved in `Lemmas/AdaptersStreamEnc`
-(`streamEnc_sane`) under `OracleBounded o B`, only because the cursor balance came bundled with the
-termination potential.  The byte ledger of `Lemmas/StreamTotal` (`call_ledger`: an invariant of
-every atomic step) gives it for EVERY payload oracle.  `EncProgress` (a stalled call lowers a
-cross-call rank) still needs the uniform bound.
+offered nor more output produced than there was room for — from the byte ledger of
+`Lemmas/StreamTotal` (`call_ledger`: an invariant of every atomic step), for EVERY payload oracle.
+(Since the rework of the termination potential `streamEnc_sane` and `EncProgress` in
+`Lemmas/AdaptersStreamEnc` are free of `OracleBounded` as well; this is the independent route.)
 -/
 namespace BV.Props.C11
 open BV.Adapters BV.Stream
